@@ -5,7 +5,7 @@ import numpy as np
 import flowdyn.field as ffield
 import flowdyn.integration as tn
 
-from .. import core, gen
+from .. import core, gen, probes
 from ..core import group
 
 ORDER = {"explicit": 1, "forwardeuler": 1, "rk2": 2, "rk2_heun": 2, "rk3_heun": 3, "rk3ssp": 3, "rk4": 4,
@@ -61,7 +61,43 @@ def extract(iname, dt=1.0, t0=0.0):
     return A, b, c, ncall, (f.time - t0) / dt
 
 
+_SOLVE = {"on": False}
+
+
+def _rk_step_observer(solver, tok, f_after):
+    """every outermost step() taken INSIDE an observed solve (main steps, snapshot side steps on integrator copies, steps after
+    monitors ran) must be the RK step of the extracted tableau applied to the real right-hand side"""
+    if not _SOLVE["on"]:
+        return
+    ctx, A, b, rhs, iname = _SOLVE["ctx"], _SOLVE["A"], _SOLVE["b"], _SOLVE["rhs"], _SOLVE["iname"]
+    before = tok["before"]
+    dt = tok["dt"]
+    if not all(np.all(np.isfinite(d)) for d in before["data"]) or not np.all(np.isfinite(dt)):
+        return
+    s = len(b)
+    c = A.sum(axis=1)
+    ks = []
+    with probes.quiet():
+        for i in range(s):
+            data = [before["data"][q] + dt * sum(A[i, j] * ks[j][q] for j in range(i)) for q in range(len(before["data"]))]
+            ks.append([np.array(x, float, copy=True) for x in rhs(before["time"] + c[i] * float(np.min(dt)), data)])
+    if not all(np.all(np.isfinite(x)) for k in ks for x in k):
+        return
+    worst = 0.0
+    for q in range(len(before["data"])):
+        exp = before["data"][q] + dt * sum(b[j] * ks[j][q] for j in range(s))
+        sc = np.max(np.abs(before["data"][q])) + np.max(np.abs(dt)) * max(np.max(np.abs(k[q])) for k in ks) + 1e-300
+        worst = max(worst, float(np.max(np.abs(np.asarray(f_after.data[q], float) - exp)) / sc))
+    _SOLVE["steps"] += 1
+    ctx.close("solve-step-is-rk", worst, 1e-12, "solve/%s/step-inside-solve-is-not-the-runge-kutta-step" % iname, {"step starts at time": before["time"], "dt": dt, "context": _SOLVE["what"]}, cls="solve-steps:" + iname)
+
+
 def setup(ctx):
+    from .. import solvelog
+    solvelog.install(with_solve=False)
+    solvelog.STEP_OBSERVERS.append(_rk_step_observer)
+    ctx.on_begin.append(solvelog.reset)
+    ctx.require(*["solve-steps:" + n for n in gen.EXPLICIT])
     ctx.require(*["tableau:" + n for n in gen.EXPLICIT], *["rkness:" + n for n in gen.EXPLICIT], *["order:" + n for n in gen.EXPLICIT], "rkness-zero-first-stage", "rkness-after-previous-step")
 
 
@@ -240,3 +276,43 @@ def order(ctx, rng, idx):
     ctx.true("order", floor or slope >= ORDER[iname] - 0.35, "order/%s/below-nominal" % iname,
              {"orders": p, "slope (3 finest levels)": slope, "errors": errs, "nominal": ORDER[iname]}, cls="order:" + iname)
     ctx.nontrivial("order", iname, a, om)
+
+
+@group(quick=len(gen.EXPLICIT) * 12, thorough=len(gen.EXPLICIT) * 400)
+def solve_steps(ctx, rng, idx):
+    """real solves / restarts with residual and data_average monitors, save times inside steps, dtlocal: EVERY step taken (main
+    steps and snapshot side steps) is re-computed by the observer from the extracted tableau and must match"""
+    iname = gen.EXPLICIT[idx % len(gen.EXPLICIT)]
+    A, b, c, ncall, adv = extract(iname)
+    scn = gen.scenario1d(rng, nmax=10, fluxes=gen.UPWIND_FLUXES, mach_max=1.2, ratio=4.0, recons=["extrapol1", "extrapol2", "muscl_minmod", "muscl_vanleer", "extrapol3"])
+    cfl = float(rng.uniform(0.1, 0.35))
+    n = int(rng.integers(3, 9))
+    dtc = scn.disc.calc_timestep(scn.field, cfl)
+    if not np.all(np.isfinite(dtc)):
+        raise core.Skip("infinite dt")
+    dt0 = float(np.min(dtc))
+    tsave = sorted(float(scn.field.time + dt0 * x) for x in rng.uniform(0.2, n - 0.5, int(rng.integers(1, 5))))
+    mons = {}
+    if rng.random() < 0.8:
+        mons["residual"] = {"frequency": int(rng.integers(1, 3))}
+    names = {"convection": "q", "euler": "density", "shallowwater": "height"}.get(scn.model.equation)
+    if names and rng.random() < 0.5:
+        mons["avg"] = {"type": "data_average", "data": names, "frequency": int(rng.integers(1, 3))}
+    dtlocal = bool(rng.random() < 0.2)
+    what = {"monitors": {k: dict(v) for k, v in mons.items()}, "tsave": tsave, "dtlocal": dtlocal}
+    ctx.describe(integrator=iname, cfl=cfl, maxit=n, **what, **scn.desc())
+    import flowdyn.field as ffield_
+    def rhs(t, data):
+        return scn.disc.rhs(ffield_.fdata(scn.model, scn.mesh, data, t=t))
+    _SOLVE.update(on=True, ctx=ctx, A=A, b=b, rhs=rhs, iname=iname, steps=0, what=what)
+    try:
+        solver = gen.integ(iname)(scn.mesh, scn.disc, monitors={"ctor_res": {"type": "residual", "frequency": 2}} if rng.random() < 0.3 else {})
+        res = solver.solve(scn.field, cfl, tsave, stop={"maxit": n, "tottime": 1e30}, monitors=mons, directives={"dtlocal": True} if dtlocal else {})
+        if rng.random() < 0.5 and all(np.all(np.isfinite(d)) for d in res[-1].data):
+            solver.restart(res[-1], cfl * 0.8, stop={"maxit": 2})          # restart (without the per-call monitors), then a direct step
+            g = res[0].copy()
+            solver.step(g, dt0 * 0.5)
+    finally:
+        _SOLVE["on"] = False
+    if _SOLVE["steps"]:
+        ctx.nontrivial("solve-steps", iname, cfl, n, what, scn.desc())
